@@ -17,6 +17,9 @@ MCNext == MCStep \/ (Quiescent /\ UNCHANGED vars)
 PStep == Step /\ UNCHANGED mm
 PSpec == MCInit /\ [][PStep \/ (Quiescent /\ UNCHANGED vars)]_vars
 PNoStuck == (~ENABLED PStep) => Quiescent
+\* under weak fairness of every worker every request is eventually granted and every coroutine finishes
+\* (an iteration of the spinlock's wait loop is a stuttering step: it does not count as progress of the spinning worker)
+FairP == PSpec /\ \A w \in Wrk : WF_vars(PStep /\ ev'.p = w)
 PView == st
 MCSpec == MCInit /\ [][MCNext]_vars
 \* weak fairness of every worker: every request is eventually granted and every coroutine finishes
